@@ -19,6 +19,23 @@ fn long_contexts() -> [&'static [u8]; 6] {
     [b"", b"1 ", b"1 sort ", b"1 sort bitvec ", b"1 sort bitvec 1\n2 input 1 ", b"1 sort bitvec 1\n2 "]
 }
 
+/// Repetition family (C05): one construct repeated N times wherever the grammar loops; see the cnf harness.
+fn repetition_docs(n: usize) -> Vec<generic::Doc> {
+    let mut v = Vec::new();
+    for (name, filler) in [("comment-lines", &b";c\n"[..]), ("blank-lines", b"\n"), ("blanks", b" "), ("indented-blank-lines", b"  \n"), ("bare-comments", b";\n")] {
+        v.push(generic::repeat_doc(&format!("btor2/{name}/front"), b"", filler, n, b"1 sort bitvec 1\n"));
+        v.push(generic::repeat_doc(&format!("btor2/{name}/middle"), b"1 sort bitvec 1\n", filler, n, b"2 input 1\n"));
+        v.push(generic::repeat_doc(&format!("btor2/{name}/trailer"), b"1 sort bitvec 1\n", filler, n, b""));
+    }
+    v.push(generic::numbered_doc("btor2/nodes", b"1 sort bitvec 1\n", n, &|k| format!("{} input 1\n", k + 2), b""));
+    v.push(generic::numbered_doc("btor2/nodes-with-symbols-and-comments", b"1 sort bitvec 1\n", n, &|k| format!("{} input 1 s{k} ; c\n", k + 2), b""));
+    v.push(generic::numbered_doc("btor2/chain", b"1 sort bitvec 1\n2 input 1\n", n, &|k| format!("{} and 1 {} 2\n", k + 3, k + 2), b""));
+    v.push(generic::numbered_doc("btor2/sorts", b"", n, &|k| format!("{} sort bitvec {}\n", k + 1, k + 1), b""));
+    v.push(generic::repeat_doc("btor2/justice-args", format!("1 sort bitvec 1\n2 input 1\n3 justice {n}").as_bytes(), b" 2", n, b"\n"));
+    v.push(generic::repeat_doc("btor2/same-line-again", b"1 sort bitvec 1\n", b"2 input 1\n", n, b""));
+    v
+}
+
 fn main() {
     mc_core::subject::install_quiet_panic_hook();
     let cli = parse_cli();
@@ -112,6 +129,10 @@ fn main() {
             let mut groups = Vec::new();
             for kind in FORMATS {
                 let subs = subjects::subjects();
+                groups.push((format!("{kind}-repetitions"), subjects::subjects(), repetition_docs(if generic::deep_profile() { 200_000 } else { tier.pick(100_000, 300_000) })));
+                if generic::deep_profile() {
+                    continue;
+                }
                 let inp = gen::inputs_seq(tier, tier.pick(3, 4));
                 sample_docs(&mut report, kind, &inp.sequences);
                 let mut docs = inp.all();
@@ -122,7 +143,7 @@ fn main() {
             }
             generic::c05_isolated(&groups, tier.pick(40.0, 1500.0), &mut report);
             report.traces = report.evaluations;
-            "every document of the generated families x every subject x {one-shot, byte-wise}, each (subject, document) unit run in an isolated single-threaded worker process: the run must return a value (no panic incl. overflow / debug assertion in the checked build, no abort, no stack overflow, no hang), within 2 s, with peak requested heap <= 64 x consumed bytes + 2 MiB + 4 chunks (counting allocator, per thread). Non-trivial: every case (each is a distinct input x subject)".into()
+            "every document of the generated families x every subject x {one-shot, byte-wise}, each (subject, document) unit run in an isolated single-threaded worker process: the run must return a value (no panic incl. overflow / debug assertion in the checked build, no abort, no stack overflow, no hang), within 2 s, with peak requested heap <= 64 x consumed bytes + 2 MiB + 4 chunks (counting allocator, per thread). Non-trivial: every case (each is a distinct input x subject). Repetition family: one construct (comment line, blank line, blanks, node line, sort line, chained node, justice argument) repeated 100 000 - 300 000 times; the quick tier runs it in the UNOPTIMISED profile as well (opt-level 0: recursion that an optimiser turns into a loop overflows the stack only there)".into()
         }
         "C08" => {
             for kind in FORMATS {
